@@ -227,8 +227,11 @@ C20_InstallAsAsked(e) ==
     /\ (IF e.o.um THEN ~e.install.has_user ELSE e.install.has_user /\ e.install.username = e.conc.user)
     /\ (IF e.o.env THEN e.install.has_env /\ e.install.env = e.conc.env ELSE ~e.install.has_env)
 
-NodeTakes(n, e) == n.ok /\ DumpInterp(n.dump) = Intended(e.o, e.conc)
-NodeTakesU(n, e) == n.ok /\ DumpInterp(n.dump) = IntendedU(e.o, e.conc)
+\* the lists are compared as lists: as many peers / contact URLs as were asked for (a node that takes the manager's
+\* comma-joined value as ONE item has the same joined text -- seeded/C20-9)
+ListsTaken(n, e) == Len(n.dump.urls) = e.o.urls /\ Len(n.dump.addrs) = e.o.peers
+NodeTakes(n, e) == n.ok /\ DumpInterp(n.dump) = Intended(e.o, e.conc) /\ ListsTaken(n, e)
+NodeTakesU(n, e) == n.ok /\ DumpInterp(n.dump) = IntendedU(e.o, e.conc) /\ ListsTaken(n, e)
 \* antnode accepts each argument list and interprets it as the intended configuration
 C20_AcceptedByNode(e) ==
     e.node_checked => /\ (e.has_install => NodeTakes(e.node_i, e))
